@@ -79,6 +79,9 @@ mod routing_table;
 mod store;
 mod types;
 
+#[cfg(litep2p_verif)]
+pub mod verif;
+
 mod schema {
     pub(super) mod kademlia {
         include!(concat!(env!("OUT_DIR"), "/kademlia.rs"));
